@@ -54,7 +54,13 @@ func checkSlices(c sliceCase) *rp.Fail {
 	case "PutCard":
 		table := make([]types.CardFormat, len(c.Before))
 		for i, v := range c.Before {
-			table[i] = types.CardFormat(v % 2)
+			// (defined formats and, one time in three, numbers that are no format: whatever the operation makes of them, the list stays
+			// as the caller wrote it)
+			if f := v % 6; f < 4 {
+				table[i] = types.CardFormat(f % 2)
+			} else {
+				table[i] = types.CardFormat(v >> 3)
+			}
 		}
 		before := append([]types.CardFormat(nil), table...)
 		spec.Header(ok, 0x17, 0x50, serial)
